@@ -15,6 +15,10 @@ def codes_inc():
     return '\n'.join('    vp_assume(code != %du);' % v for v in known) + '\n'
 
 
+def file_source():
+    return open(os.path.join(HERE, 'harness', 'c09_file.cpp')).read().replace('#include "c09_codes.inc"\n', codes_inc())
+
+
 def tasks(tier, seed):
     ts = []
     src = open(os.path.join(HERE, 'harness', 'c09_resync.cpp')).read()
@@ -26,7 +30,7 @@ def tasks(tier, seed):
                         'at the real header' % maxfill,
                    reach=('h_resync:end',), bounds='filler <= %d bytes, all 256 byte values' % maxfill,
                    kinds={'assert', 'memory', 'uncaught_exception', 'terminate', 'limit'}))
-    fsrc = open(os.path.join(HERE, 'harness', 'c09_file.cpp')).read().replace('#include "c09_codes.inc"\n', codes_inc())
+    fsrc = file_source()
     for cut in ((0, 3) if tier == 'quick' else (0, 1, 3, 9, 20)):
         ts.append(Task('unknown.cut%d' % cut, '#define CUT %d\n' % cut + fsrc, 'h_unknown', None,
                        opts=dict(validate=False, extra=['zlib_stub.cpp'], limit_is_hang=True, max_wall=1500, max_steps=6000000, enum_limit=400),
@@ -36,6 +40,21 @@ def tasks(tier, seed):
                             'order, then null' % ('one container' if cut == 0 else 'two containers split %d bytes before the end of the unknown object' % cut),
                        reach=('h_unknown:end',), bounds='filler <= 3 bytes; unknown sizes {16,17,19,32,40}',
                        kinds={'assert', 'memory', 'uncaught_exception', 'terminate', 'deadlock', 'hang', 'limit'}))
+    for cut in ((3,) if tier == 'quick' else (1, 3, 9, 20)):
+        ts.append(Task('unknown_scaled.cut%d' % cut, '#define SCALED_STREAM 1\n#define CUT %d\n' % cut + fsrc, 'h_unknown', None,
+                       opts=dict(validate=False, extra=['zlib_stub.cpp'], limit_is_hang=True, max_wall=1500, max_steps=6000000, enum_limit=400),
+                       desc='the same stream in two containers split %d bytes before the end of the unknown object, stream buffer '
+                            'scaled down to 16 bytes: the inflater is parked when the decoder skips across the boundary' % cut,
+                       reach=('h_unknown:end',), bounds='filler <= 3 bytes; unknown sizes {16,17,19,32,40}',
+                       kinds={'assert', 'memory', 'uncaught_exception', 'terminate', 'deadlock', 'hang', 'limit'}))
+    # bytes inside the unknown object that look like an object (a complete CanMessage image) must be skipped with it, also
+    # when the container holding them has not been inflated yet at the moment of the skip
+    for cut in ((60,) if tier == 'quick' else (60, 58, 30, 4)):
+        ts.append(Task('unknown_embedded.cut%d' % cut, '#define EMBEDDED_IMAGE 1\n#define SCALED_STREAM 1\n#define CUT %d\n' % cut + fsrc, 'h_unknown', None,
+                       opts=dict(validate=False, extra=['zlib_stub.cpp'], limit_is_hang=True, max_wall=1500, max_steps=6000000, enum_limit=400),
+                       desc='[CanMessage][unknown object of 80 bytes whose body contains a complete CanMessage image][AppText] in two '
+                            'containers split %d bytes before the end of the unknown object, stream buffer 16 bytes' % cut,
+                       reach=('h_unknown:end',), bounds='one shape', kinds={'assert', 'memory', 'uncaught_exception', 'terminate', 'deadlock', 'hang', 'limit'}))
     meta = dict(
         level='model_checking',
         explanation='(a) The 4-byte-window signature matcher with -3/-2/-1 back-off is executed on fully symbolic filler bytes; z3 '
